@@ -1,12 +1,12 @@
 SPECIFICATION Spec
 CONSTANTS
   Obj = {1, 2, 3}
-  MaxSteps = 99
+  MaxSteps = 6
   TlsRecurse = TRUE
   SweepCoop = TRUE
   Emit = FALSE
   ClearOnProcess = TRUE
-  Spawners = FALSE
+  Spawners = TRUE
   NestedSweep = FALSE
   TeardownLoop = TRUE
   StopOps = FALSE
